@@ -13,8 +13,10 @@ EXTENDS Tx, Json, IOUtils
 
 VARIABLE rid
 
-AllFixes == {"F2", "F3", "F13"}
+AllFixes == {"F2", "F3", "F13", "F14"}
 NoFixes == {}
+NoEnv == {}
+CrashFault == {"crash", "fault"}
 Without_F2 == AllFixes \ {"F2"}
 Without_F3 == AllFixes \ {"F3"}
 Without_F13 == AllFixes \ {"F13"}
@@ -37,6 +39,7 @@ Inv_C07 == Races[rid].known # "" \/ SerializableTx
 Inv_C05 == C05_Tx
 Inv_C06 == C06_Tx
 Inv_Struct == InvariantsTx /\ StatusesTx
+Inv_Single == Refines /\ CrashConsistent /\ ExactlyOnceOrClean /\ InvariantsTx
 Inv_C12 == Races[rid].known # "" \/ FinalC12
 
 \* report, for every terminal state, which observed outcomes it explains
